@@ -83,12 +83,13 @@ TLines ==
     \cup {<<m, <<Rg(d), Rg(n), Rg(k)>>, 0, 0>> : m \in {"sdiv", "udiv"}, d \in AnyT, n \in AnyT, k \in AnyT}
 
 AnyA == IF Deep THEN 0..15 ELSE {0, 1, 9, 13, 14, 15}
-R2A == IF Deep THEN AnyA \X AnyA ELSE {<<0, 1>>, <<9, 9>>, <<13, 15>>, <<15, 14>>, <<14, 0>>, <<1, 13>>, <<12, 7>>}
-R3A == IF Deep THEN AnyA \X AnyA \X AnyA
+DeepA == {0, 1, 7, 8, 12, 13, 14, 15}
+R2A == IF Deep THEN DeepA \X DeepA ELSE {<<0, 1>>, <<9, 9>>, <<13, 15>>, <<15, 14>>, <<14, 0>>, <<1, 13>>, <<12, 7>>}
+R3A == IF Deep THEN (DeepA \ {12}) \X (DeepA \ {12}) \X (DeepA \ {12})
        ELSE {<<0, 1, 2>>, <<9, 9, 9>>, <<13, 14, 15>>, <<15, 13, 14>>, <<14, 15, 0>>, <<1, 0, 13>>, <<12, 7, 1>>, <<2, 2, 9>>, <<3, 8, 8>>,
              <<15, 15, 15>>, <<0, 0, 0>>}
 ShAmts == {0, 1, 15, 31}
-ACond == IF Deep THEN {"", "eq", "ls", "cc", "hs", "al", "vs"} ELSE {"", "eq", "hs"}
+ACond == IF Deep THEN {"", "eq", "ls", "cc", "hs"} ELSE {"", "eq", "hs"}
 AImms == {v \in AImmSamples : ModImmOK(v)}
 APc == 67108864
 \* groups of printed A32 lines (an operator, so that a group is built by the worker that picks it)
@@ -141,7 +142,7 @@ AwHi == {cnd * 4096 + op * 16 + rn : cnd \in {0, 14}, op \in 0..255, rn \in (IF 
         \cup {15 * 4096 + op * 16 : op \in {0, 87, 160, 255}}
 AwLo == {0, 1, 16, 17, 144, 145, 176, 177, 208, 240, 241, 61440, 61441, 61444, 4660, 65535, 3871, 33825, 4021, 65310, 61567,
          96, 97, 32, 64, 3840, 3857, 65280, 65297, 65329, 61457, 61713, 3985, 7956, 40960, 57343, 16, 112, 113, 65392}
-         \cup (IF Deep THEN {256 * x + 159 : x \in 0..255} ELSE {})
+         \cup (IF Deep THEN {2048 * x + 159 + 32 * (x % 4) : x \in 0..31} ELSE {})
 
 Init == fam = "none" /\ pick = None
 PickFam == fam = "none" /\ fam' \in Fams /\ pick' = None
